@@ -7128,7 +7128,11 @@ impl<'a> Tyck<'a> for TyEnvT<su::TermId> {
                     )?,
                 };
                 let arg_out_ann = self.mk(arg).tyck_k(tycker, Action::ana(arg_ty.into()))?;
-                let TermAnnId::Value(arg, _arg_ty) = arg_out_ann else { unreachable!() };
+                let (arg, _arg_ty) = arg_out_ann.try_as_value(
+                    tycker,
+                    TyckError::SortMismatch,
+                    std::panic::Location::caller(),
+                )?;
                 let term = crate::query::InternedTerm::new(tycker.db, self.inner);
                 let input = crate::query::InternedCtorInput::new(
                     tycker.db,
@@ -7218,6 +7222,11 @@ impl<'a> Tyck<'a> for TyEnvT<su::TermId> {
                             | AnnId::Set | AnnId::Kind(_) => tycker
                                 .err_k(TyckError::SortMismatch, std::panic::Location::caller())?,
                             | AnnId::Type(ana_ty) => {
+                                // no arm is checked against the expected type, so nothing
+                                // else establishes that it is a computation type
+                                let ctype = ss::CType.build(tycker, &self.info);
+                                let ana_ty_kd = tycker.statics.type_kind(ana_ty);
+                                Lub::lub_k(ctype, ana_ty_kd, tycker)?;
                                 let term = crate::query::InternedTerm::new(tycker.db, self.inner);
                                 let input = crate::query::InternedMatchInput::new(
                                     tycker.db,
